@@ -17,6 +17,7 @@ import (
 	"os/exec"
 	"runtime"
 	"runtime/debug"
+	"sort"
 	"strconv"
 	"strings"
 	"sync"
@@ -25,6 +26,7 @@ import (
 
 	"fortio.org/log"
 	"grol.io/grol/eval"
+	"grol.io/grol/extensions"
 	"grol.io/grol/object"
 	"grol.io/grol/repl"
 	"verifharness/common"
@@ -2294,6 +2296,204 @@ func split(kind string, seed uint64, n, chunk, k, maxOps int) []job {
 	return js
 }
 
+// ---- containers the program did not build itself: everything a fresh state hands out - info and every array / map
+// reachable from it, the result of every registered extension function and root function called with default arguments,
+// and first / rest / slices of those. Each is copied, the copy is written (index assignment, del, +), and the other
+// holder and the source re-evaluated - at once and in a later input - must be what they were. (Direct oracle only; this is
+// the one place where the harness loads the extension layer.)
+func defaultArg(t object.Type) string {
+	switch t { //nolint:exhaustive // the rest gets an integer
+	case object.FLOAT:
+		return "1.5"
+	case object.STRING:
+		return "\"a,b,c,d,e,f,g,h,i,j\""
+	case object.ARRAY:
+		return "[3,1,2]"
+	case object.MAP:
+		return "{1:1,2:2,3:3,4:4,5:5}"
+	case object.BOOLEAN:
+		return "true"
+	case object.FUNC:
+		return "func(x){x}"
+	}
+	return "12"
+}
+
+func isContainer(o object.Object) bool { return o.Type() == object.ARRAY || o.Type() == object.MAP }
+
+func handedOutExprs() []string {
+	var exprs []string
+	st := eval.NewState()
+	var walk func(e string, depth int)
+	walk = func(e string, depth int) {
+		o, err := eval.EvalString(st, e, false)
+		if err != nil || !isContainer(o) {
+			return
+		}
+		exprs = append(exprs, e)
+		if depth == 0 {
+			return
+		}
+		if o.Type() == object.MAP {
+			for _, k := range object.Elements(o) {
+				walk(e+"["+k.Inspect()+"]", depth-1)
+			}
+		} else if n := object.Len(o); n > 0 {
+			walk(e+"[0]", depth-1)
+			walk(e+"[-1]", depth-1)
+		}
+	}
+	walk("info", 2)
+	skip := map[string]bool{"exec": true, "run": true, "load": true, "save": true, "exit": true, "sleep": true, "read": true, "eof": true, "image.save": true, "image.png": true, "rand": true, "time.now": true}
+	var names []string
+	for n := range object.ExtraFunctions() {
+		names = append(names, n)
+	}
+	sort.Strings(names)
+	for _, n := range names {
+		e := object.ExtraFunctions()[n]
+		if skip[n] {
+			continue
+		}
+		for na := e.MinArgs; na <= e.MinArgs+1 && (e.MaxArgs < 0 || na <= e.MaxArgs); na++ {
+			args := make([]string, na)
+			for i := range args {
+				t := object.ANY
+				if i < len(e.ArgTypes) {
+					t = e.ArgTypes[i]
+				}
+				args[i] = defaultArg(t)
+			}
+			exprs = append(exprs, n+"("+strings.Join(args, ",")+")")
+		}
+	}
+	if o, err := eval.EvalString(st, "info.globals", false); err == nil { // root functions written in grol
+		for _, k := range object.Elements(o) {
+			if ks, ok := k.(object.String); ok {
+				if v, err := eval.EvalString(st, ks.Value, false); err == nil && v.Type() == object.FUNC {
+					exprs = append(exprs, ks.Value+"([3,1,2])", ks.Value+"({1:1,2:2,3:3,4:4,5:5})", ks.Value+"(0:12)")
+				}
+			}
+		}
+	}
+	exprs = append(exprs, "0:12", "0:9", "(0:12)[1:]", "rest(0:12)", "[0]*12", "(0:9)+[9]")
+	return exprs
+}
+
+func c06HandedOut(c *Ctx) {
+	_ = extensions.Init(nil)
+	log.SetLogLevelQuiet(log.Critical)
+	n := 0
+	for _, base := range handedOutExprs() {
+		for _, der := range []string{"%s", "rest(%s)", "%s[1:]", "first(%s)", "%s[0:100]"} {
+			e := fmt.Sprintf(der, base)
+			se := newSession()
+			se.exec("c=0;d=0;zz=0") // bound beforehand: info.globals does not change when they are assigned below
+			o, err := eval.EvalString(se.s, e, false)
+			if err != nil || !isContainer(o) || object.Len(o) == 0 {
+				continue
+			}
+			o2, err2 := eval.EvalString(se.s, e, false)
+			stable := err2 == nil && safeInspect(o2) == safeInspect(o) // rand / time results are not compared with a re-evaluation
+			want := safeInspect(o)
+			n++
+			key := "0"
+			if o.Type() == object.MAP {
+				key = object.Elements(o)[0].Inspect()
+			}
+			grow := "c=c+[\"ZZ\"];c[0]=\"YY\""
+			if o.Type() == object.MAP {
+				grow = "c=c+{\"ZZ\":1};c[" + key + "]=\"YY\""
+			}
+			for _, write := range []string{"c[" + key + "]=\"ZZ\"", "del(c[" + key + "])", grow, "func(){c[" + key + "]=\"WW\"}()", "func(p){p[" + key + "]=\"VV\";p}(c)"} {
+				se.exec("c=" + e)
+				se.exec("d=c")
+				se.exec(write)
+				c.Eval()
+				line := fmt.Sprintf("HANDED c=%s; d=c; %s", e, write)
+				check := func(when string) {
+					if d, err := eval.EvalString(se.s, "d", false); err != nil || safeInspect(d) != want {
+						got := "<error>"
+						if err == nil {
+							got = safeInspect(d)
+						}
+						c.Fail("alias-handedout-copy", line, fmt.Sprintf("%s: d was %s, now %s", when, want, got))
+					}
+					if stable {
+						if r, err := eval.EvalString(se.s, e, false); err != nil || safeInspect(r) != want {
+							got := "<error>"
+							if err == nil {
+								got = safeInspect(r)
+							}
+							c.Fail("alias-handedout-source", line, fmt.Sprintf("%s: %s was %s, now evaluates to %s", when, e, want, got))
+						}
+					}
+				}
+				check("right after")
+				se.exec("zz=1") // a later input of the session
+				check("in a later input")
+			}
+		}
+	}
+	c.Extra["handed_out_containers"] = n
+}
+
+// ---- aliasing through LAZILY dereferenced outer variables: inside a function an outer variable evaluates to a reference
+// that an array literal / call / map literal dereferences after all its elements are evaluated. r = [a, f()] (f writes
+// a[i], or a later element writes it inline), then another write to a, then the first element is read again: whatever it
+// was right after r was built, it must still be. a is a global or a local of an enclosing function; sizes around 8 and 4.
+func c06LazyRefs(c *Ctx) {
+	forms := []struct{ name, build, read string }{
+		{"arrayliteral", "r=[a,bump()]", "r[0]"}, {"callargs", "r=keep(a,bump())", "r"}, {"mapliteral", "r={1:a,2:bump()}", "r[1]"},
+		{"inlinewrite", "r=[a,(a[1]=11)]", "r[0]"}, {"mapinline", "r={1:a,2:(a[1]=11)}", "r[1]"}, {"nested", "r=[[a],bump()]", "r[0][0]"},
+		{"variadic", "r=vfn(a,bump(),0)", "r[0]"}, {"twice", "r=[a,bump(),a,bump()]", "r[2]"},
+	}
+	lits := []struct{ name, src string }{}
+	for _, n := range []int{3, 8, 9, 12} {
+		lits = append(lits, struct{ name, src string }{fmt.Sprintf("array%d", n), fmt.Sprintf("0:%d", n)})
+	}
+	for _, n := range []int{3, 4, 5, 7} {
+		parts := make([]string, n)
+		for i := range parts {
+			parts[i] = fmt.Sprintf("%d:%d", i, i)
+		}
+		lits = append(lits, struct{ name, src string }{fmt.Sprintf("map%d", n), "{" + strings.Join(parts, ",") + "}"})
+	}
+	for _, f := range forms {
+		for _, l := range lits {
+			for _, where := range []string{"global", "local"} {
+				for _, second := range []string{"a[2]=22", "a[1]=33", "bump()", "a=a+[5];a[0]=44", "del(a[2])"} {
+					if strings.HasPrefix(second, "del") != strings.HasPrefix(l.name, "map") && (strings.HasPrefix(second, "del") || strings.Contains(second, "a+[5]")) {
+						continue // del is for maps, + [..] for arrays
+					}
+					body := fmt.Sprintf("%s;x=json(%s);%s;[x,json(%s)]", f.build, f.read, second, f.read)
+					var prog []string
+					if where == "global" {
+						prog = []string{"a=" + l.src, "bump=func(){a[1]=a[1]+10}", "keep=func(p,q){p}", "h=func(){" + body + "}", "res=h()"}
+					} else {
+						prog = []string{"keep=func(p,q){p}", "outer=func(){a=" + l.src + ";bump=func(){a[1]=a[1]+10};h=func(){" + body + "};h()}", "res=outer()"}
+					}
+					se := newSession()
+					for _, st := range prog {
+						se.exec(st)
+						c.Eval()
+					}
+					line := "LAZY " + strings.Join(prog, "; ")
+					r0, e0 := eval.EvalString(se.s, "res[0]", false)
+					r1, e1 := eval.EvalString(se.s, "res[1]", false)
+					if e0 != nil || e1 != nil {
+						continue // the form is not accepted (an error inside): nothing was built
+					}
+					if r0.Inspect() != r1.Inspect() {
+						c.Fail("alias-lazyref-"+f.name+"-"+where+"-"+l.name, line,
+							fmt.Sprintf("%s was %s right after it was built, %s after %q", f.read, r0.Inspect(), r1.Inspect(), second))
+					}
+				}
+			}
+		}
+	}
+}
+
 func runC06(c *Ctx) {
 	c.Rule = "sequences of bind / copy / index-assign / + element / + array / * / slice / rest / get / map set / merge / del / " +
 		"element increment / store into another container / call mutating its parameter and OUTER variables (func, lambda, named function; " +
@@ -2308,11 +2508,16 @@ func runC06(c *Ctx) {
 		f := strings.Fields(c.ReplayCase)
 		if len(f) == 4 && f[0] == "SEQ" {
 			runJobs(c, []job{{kind: "replay", from: 0, to: 1, replay: c.ReplayCase}})
+		} else if len(f) > 0 && (f[0] == "HANDED" || f[0] == "LAZY") { // direct phases: cheap, replayed as a whole
+			c06HandedOut(c)
+			c06LazyRefs(c)
 		} else {
 			fmt.Println("bad replay case")
 		}
 		return
 	}
+	c06HandedOut(c)
+	c06LazyRefs(c)
 	jobs := split("corpus", 0, len(corpus()), 100, 0, 0)
 	if os.Getenv("C06_CORPUS_ONLY") != "" { // reproduction of the recorded defects on a pre-repair tree
 		runJobs(c, jobs)
